@@ -154,6 +154,9 @@ pub fn pair_case(c: &PairCase, obs: &mut Obs) -> PResult {
     ensure!(got == want, "C18/partial_cmp", "partial_cmp({a:?}, {b:?}) = {got:?}, expected {want:?}");
     let eq = a == b;
     ensure!(eq == (same_kind && c.l1.0 == c.l2.0), "C18/eq", "({a:?} == {b:?}) = {eq}");
+    let ne = a != b;
+    ensure!(ne == !eq && (&a == &b) == eq && (&a != &b) == ne && a.eq(&b) == eq && a.ne(&b) == ne && (b == a) == eq && (b != a) == ne, "C18/eq_forms", "the forms of == / != disagree for {a:?}, {b:?}: == {eq}, != {ne}, refs {} {}, methods {} {}, reversed {} {}", &a == &b, &a != &b, a.eq(&b), a.ne(&b), b == a, b != a);
+    ensure!(a.lt(&b) == (a < b) && a.le(&b) == (a <= b) && a.gt(&b) == (a > b) && a.ge(&b) == (a >= b) && (&a).partial_cmp(&&b) == got, "C18/cmp_forms", "the method and operator forms of the comparison disagree for {a:?}, {b:?}");
     ensure!((a < b) == (want == Some(Ordering::Less)) && (a > b) == (want == Some(Ordering::Greater)), "C18/lt_gt", "{a:?} vs {b:?}: < {} > {}", a < b, a > b);
     ensure!((a <= b) == matches!(want, Some(Ordering::Less | Ordering::Equal)) && (a >= b) == matches!(want, Some(Ordering::Greater | Ordering::Equal)), "C18/le_ge", "{a:?} vs {b:?}: <= {} >= {}", a <= b, a >= b);
     ensure!(b.partial_cmp(&a) == want.map(|o| o.reverse()), "C18/partial_cmp_antisymmetric", "partial_cmp({b:?}, {a:?}) = {:?}", b.partial_cmp(&a));
